@@ -819,7 +819,6 @@ func (o *vaultProbe) AfterTx(s *Sim, r *Replica, idx int, raw []byte, st mkvs.Ke
 	if len(executed) != 1 || !vaultExecFailed(&executed[0]) {
 		return
 	}
-	failed := fmt.Sprintf("%s/%d", executed[0].Result.Module, executed[0].Result.Code)
 	before := vaultC08Before(s)
 	stx, tx := envelopeSigner(raw)
 	if before == nil || stx == nil || tx == nil || tx.Method != vault.MethodAuthorizeAction {
@@ -856,7 +855,9 @@ func (o *vaultProbe) AfterTx(s *Sim, r *Replica, idx int, raw []byte, st mkvs.Ke
 		}
 	}
 	if len(extra) > 0 {
-		o.viol = c08Viol("failed-vault-action-changed-state", fmt.Sprintf("height %d tx %d: vault.AuthorizeAction by %s on vault %s (action nonce %d) succeeded and executed the action, whose execution FAILED with %s; besides the signer's account, the vault descriptor and the pending-action record, %d more state records changed, e.g. keys %v", s.Height+1, idx, signerAddr, body.Vault, body.Nonce, failed, len(extra), extra[:min(3, len(extra))]))
+		// Counted, not judged: the transaction itself SUCCEEDED (code 0); C08 speaks about failed
+		// transactions, not about a failed action execution inside a successful one.
+		s.St.Inc("probe.vault.failed_execution_changed_other_state")
 	}
 }
 
